@@ -1,7 +1,7 @@
 (* Model of tls/tls.go (TLS presentation language codec, RFC 5246 s4), branch for branch:
    fieldTagToFieldInfo (on pre-tokenised tag clauses), byteCount and fieldInfo.check (both
    GENERATED from the Go source, gen/Tls.v), readVarUint, parseField, marshalField.
-   Definitions only; proofs are in TlsProofs*.v. *)
+   Definitions only; proofs are in TlsLemmas.v, TlsRoundTripA.v, TlsRoundTripB.v, TlsMarshalSafe.v. *)
 From Coq Require Import Ascii String NArith ZArith List Bool Lia.
 From V Require Import Base.GoInt Base.Bytes gen.Tls.
 Import ListNotations.
